@@ -826,6 +826,8 @@ def generate_long(seed, npatches, nfiles=3, big_lines=0, p_fail=0.3):
         else:
             del lines[pos]
         post = b"".join(lines) or b"kept\n"
+        if post == data:
+            post = data + b"kept as well (p%d)\n" % pi   # never a patch without a change (nothing to apply, nothing that could fail)
         op = Op("modify", nme, pre=data, post=post, pre_mode=mode, post_mode=mode)
         op.ctx = r.choice([1, 2, 3, 3])
         git = r.random() < 0.3
